@@ -9,27 +9,12 @@ use std::time::Duration;
 
 use rt::run::{self, ParentArgs, Plan, Tier, WorkerArgs};
 
-mod hist_sized;
-mod hist_sized_ops;
-mod hist_thin;
 mod plans;
-mod sched;
 
 #[cfg(feature = "std")]
 pub const FLAVOUR: &str = "all";
 #[cfg(not(feature = "std"))]
 pub const FLAVOUR: &str = "nostd";
-
-#[cfg(feature = "arc-swap")]
-pub fn warm_arc_swap() {
-    use std::sync::Once;
-    static W: Once = Once::new();
-    W.call_once(|| {
-        let s = arc_swap::ArcSwapAny::<triomphe::Arc<u8>>::new(triomphe::Arc::new(0u8));
-        let _ = s.load_full();
-        let _ = s.load();
-    });
-}
 
 fn arg(args: &[String], name: &str) -> Option<String> {
     args.iter().position(|a| a == name).and_then(|i| args.get(i + 1).cloned())
